@@ -523,3 +523,65 @@ pub fn chars_count<'a>(mut it: CharsShim<'a>) -> usize {
     }
     n
 }
+
+/// `Iterator::any` on `core::array::IntoIter<T, N>` (the provided method goes through the raw `try_fold`)
+pub fn arr_iter_any<T: Copy, const N: usize, P: FnMut(T) -> bool>(it: &mut ArrIter<T, N>, mut p: P) -> bool {
+    while it.i < it.j {
+        let v = at(&it.a, it.i);
+        it.i += 1;
+        if p(v) {
+            return true;
+        }
+    }
+    false
+}
+
+/// `Iterator::all` on `core::array::IntoIter<T, N>`
+pub fn arr_iter_all<T: Copy, const N: usize, P: FnMut(T) -> bool>(it: &mut ArrIter<T, N>, mut p: P) -> bool {
+    while it.i < it.j {
+        let v = at(&it.a, it.i);
+        it.i += 1;
+        if !p(v) {
+            return false;
+        }
+    }
+    true
+}
+
+/// `Iterator::find` on `core::array::IntoIter<T, N>`
+pub fn arr_iter_find<T: Copy, const N: usize, P: FnMut(&T) -> bool>(it: &mut ArrIter<T, N>, mut p: P) -> Option<T> {
+    while it.i < it.j {
+        let v = at(&it.a, it.i);
+        it.i += 1;
+        if p(&v) {
+            return Some(v);
+        }
+    }
+    None
+}
+
+/// `Iterator::find_map` on `core::array::IntoIter<T, N>`
+pub fn arr_iter_find_map<T: Copy, const N: usize, B, F: FnMut(T) -> Option<B>>(it: &mut ArrIter<T, N>, mut f: F) -> Option<B> {
+    while it.i < it.j {
+        let v = at(&it.a, it.i);
+        it.i += 1;
+        if let Some(b) = f(v) {
+            return Some(b);
+        }
+    }
+    None
+}
+
+/// `Iterator::position` on `core::array::IntoIter<T, N>`
+pub fn arr_iter_position<T: Copy, const N: usize, P: FnMut(T) -> bool>(it: &mut ArrIter<T, N>, mut p: P) -> Option<usize> {
+    let mut k = 0usize;
+    while it.i < it.j {
+        let v = at(&it.a, it.i);
+        it.i += 1;
+        if p(v) {
+            return Some(k);
+        }
+        k += 1;
+    }
+    None
+}
